@@ -304,6 +304,12 @@ example :
      pipelineFinal toySem cmd0 s3cKeyId s.toInputs = .ok (.str "from-env")) := by
   decide
 
+/-- the documented exclusive pair exists in some sub-command, and some option has two flags -/
+example : (∃ cmd ∈ optCommands, ∃ a ∈ flagsOf cmd, ∃ b ∈ flagsOf cmd, (a.flag, b.flag) ∈ documentedExclusive) ∧
+    (∃ row ∈ optRows, ∃ a ∈ row.cli, ∃ b ∈ row.cli, a.flag ≠ b.flag) ∧
+    (∃ row ∈ optRows, (row.scope == 0 || row.scope == 1) = true ∧ allPlain row = true ∧ row.file.length = 2) := by
+  decide
+
 /-- every sub-command and at least 50 option rows are covered -/
 example : optCommands.length ≥ 13 ∧ optRows.length ≥ 50 ∧ (optRows.filter (·.scope == 2)).length ≥ 15 := by decide
 
